@@ -2,7 +2,8 @@
 
 case (PlacementSpec) =
     {"objs":  [{"k": "sig"|"out"|"in"|"var"|"tmp"}, ...],                       1..3 objects, all BitVector[4]
-     "sites": [{"k": "seq"|"conc"|"always"|"inst"|"inline"|"block",
+     "sites": [{"k": "seq"|"conc"|"always"|"inst"|"inline"|"block"|"dup_seq"|"dup_conc",
+                "n": 2|3, "how": "loop"|"factory",                               only dup_*: copies of one definition
                 "acts": [[obj, "r"|"w"|"rw", acc], ...],                         at most one entry per object
                 "body": [[obj, rw, acc], ...]}, ...]}                            only "always": process body of the same context
     acc = ["whole"] | ["slice", hi, lo] | ["elem", i] | ["dyn"]
@@ -14,6 +15,9 @@ Sites are rendered in order (cohdl traces contexts in definition order):
             process); `body` = statements in the process part of the *same* cohdl context
     inst    sub-entity instantiated in the architecture; read = input actual, write = output actual
     inline  sub-entity instantiated inside a concurrent context
+    dup_seq / dup_conc   n DISTINCT contexts produced by ONE function definition, either `for k in range(n):` around the
+            decorated def or a factory function called n times; every copy performs the site's actions, so the site
+            counts as n sites (same source location, different Context objects)
     block   concurrent context inside std.block (the only sub-block API; it raises TypeError at the pinned commit)
 A `tmp` object is an intermediate value computed at its writer site and handed to other sites through a pyeval stash.
 
@@ -52,7 +56,7 @@ ASSUMPTIONS = [
 ]
 
 OBJ_KINDS = ["sig", "out", "in", "var", "tmp"]
-ENUM_SITES = ["seq", "conc", "always", "inst", "inline"]
+ENUM_SITES = ["seq", "conc", "always", "inst", "inline", "dup_seq", "dup_conc"]
 ALL_SITES = ENUM_SITES + ["block"]
 
 
@@ -85,7 +89,11 @@ def _enum_case(sp, op, a, accm):
             else:
                 acc = ["slice", 1, 0] if si == 0 else ["slice", 3, 2]
             al.append([oi, rw, acc])
-        sites.append({"k": sp[si], "acts": al})
+        site = {"k": sp[si], "acts": al}
+        if sp[si].startswith("dup_"):
+            site["n"] = 2
+            site["how"] = "loop" if si == 0 else "factory"
+        sites.append(site)
     return {"objs": objs, "sites": sites}
 
 
@@ -96,7 +104,7 @@ def _useless(case):
     for s in case["sites"]:
         for o, rw, acc in list(s.get("body", [])) + list(s["acts"]):
             if case["objs"][o]["k"] == "tmp":
-                if s["k"] == "inst" or (s["k"] == "inline" and "w" in rw):
+                if s["k"] == "inst" or s["k"].startswith("dup_") or (s["k"] == "inline" and "w" in rw):
                     return True
                 if o not in first:
                     first[o] = rw
@@ -106,7 +114,7 @@ def _useless(case):
 def plan(tier):
     total = sum(1 for _ in _enum_space())
     if tier == "quick":
-        stride, nsh, per, nh = 24, 8, 150, 8
+        stride, nsh, per, nh = 40, 8, 150, 8
     else:
         stride, nsh, per, nh = 1, 32, 1500, 16
     n = (total + stride - 1) // stride
@@ -149,7 +157,8 @@ def _cases(draw):
     ns = draw(st.integers(2, 4))
     sites = []
     for _ in range(ns):
-        k = draw(st.sampled_from(["seq", "seq", "conc", "conc", "always", "always", "inst", "inst", "inline", "inline", "block"]))
+        k = draw(st.sampled_from(["seq", "seq", "conc", "conc", "always", "always", "inst", "inst", "inline", "inline", "block",
+                                  "dup_seq", "dup_seq", "dup_conc"]))
         acts = []
         for oi in range(no):
             rw = draw(st.sampled_from([None, "r", "r", "w", "w", "rw"]))
@@ -158,6 +167,9 @@ def _cases(draw):
             acc = ["whole"] if objs[oi]["k"] == "tmp" else draw(_ACC)
             acts.append([oi, rw, acc])
         s = {"k": k, "acts": acts}
+        if k.startswith("dup_"):
+            s["n"] = draw(st.sampled_from([2, 2, 3]))
+            s["how"] = draw(st.sampled_from(["loop", "factory"]))
         if k == "always" and draw(st.booleans()):
             body = []
             for oi in range(no):
@@ -216,6 +228,10 @@ def render(case):
     w("def fetch(h):")
     w("    return h[0]")
     w("")
+    w("@cohdl.pyeval")
+    w("def nxt(l):")
+    w("    return l.pop(0)")
+    w("")
 
     def ref(oi):
         k = objs[oi]["k"]
@@ -270,7 +286,10 @@ def render(case):
         for part, al in (("a", s["acts"]), ("b", s.get("body", []))):
             for oi, rw, acc in al:
                 if ("r" in rw or objs[oi]["k"] == "tmp") and s["k"] not in ("inst", "inline"):
-                    w(f"        rd_{si}{part}{oi} = Signal[{_acc_ty(acc)}]()")
+                    if s["k"].startswith("dup_"):  # one private sink per copy, handed out at trace time
+                        w(f"        rd_{si}{part}{oi} = [Signal[{_acc_ty(acc)}]() for _ in range({int(s.get('n', 2))})]")
+                    else:
+                        w(f"        rd_{si}{part}{oi} = Signal[{_acc_ty(acc)}]()")
     w("")
 
     creators = tmp_creators(case)
@@ -290,7 +309,10 @@ def render(case):
                 continue
             tgt = ref(oi) + _acc_sfx(acc)
             if "r" in rw:
-                out.append(f"rd_{si}{part}{oi}.next = {tgt}")
+                if sites[si]["k"].startswith("dup_"):
+                    out.append(f"nxt(rd_{si}{part}{oi}).next = {tgt}")
+                else:
+                    out.append(f"rd_{si}{part}{oi}.next = {tgt}")
             if "w" in rw:
                 if k == "var":
                     out.append(f"{tgt}.value = {_src(acc)}" if acc[0] == "whole" else f"{tgt} @= {_src(acc)}")
@@ -333,6 +355,21 @@ def render(case):
             w("        @std.concurrent")
             w(f"        def site{si}():")
             w(inst(si, s, " " * 12) if s["acts"] else " " * 12 + "pass")
+        elif k in ("dup_seq", "dup_conc"):
+            deco = "@std.sequential(std.Clock(self.clk))" if k == "dup_seq" else "@std.concurrent"
+            n = int(s.get("n", 2))
+            if s.get("how", "loop") == "loop":
+                w(f"        for k{si} in range({n}):")
+                w(f"            {deco}")
+                w(f"            def site{si}():")
+                L.extend(stmts(si, "a", s["acts"], " " * 16))
+            else:
+                w(f"        def make{si}():")
+                w(f"            {deco}")
+                w(f"            def site{si}():")
+                L.extend(stmts(si, "a", s["acts"], " " * 16))
+                for _ in range(n):
+                    w(f"        make{si}()")
         elif k == "block":
             w("        @std.block")
             w(f"        def blk{si}():")
@@ -369,12 +406,13 @@ def expectation(case):
     users = {i: [] for i in range(len(objs))}
     for si, s in builtins.enumerate(sites):
         seen_w, seen_u = set(), set()
+        copies = int(s.get("n", 2)) if s["k"].startswith("dup_") else 1  # every copy is a context of its own
         for oi, rw, acc in list(s["acts"]) + list(s.get("body", [])):
             if oi not in seen_u:
-                users[oi].append((si, acc[0]))
+                users[oi].extend([(si, acc[0])] * copies)
                 seen_u.add(oi)
             if "w" in rw and oi not in seen_w:
-                writers[oi].append((si, acc[0]))
+                writers[oi].extend([(si, acc[0])] * copies)
                 seen_w.add(oi)
     reasons = []
     creators = tmp_creators(case)
